@@ -506,13 +506,6 @@ def durable_execution(
                         execution_state.create_checkpoint_sync(failed_operation)
                     except CheckpointError as e:
                         return handle_checkpoint_error(e).to_dict()
-                    except BackgroundThreadError as bg_error:
-                        # the failure of this (or an earlier) call, handed over by the background thread
-                        if isinstance(bg_error.source_exception, CheckpointError):
-                            return handle_checkpoint_error(
-                                bg_error.source_exception
-                            ).to_dict()
-                        raise bg_error.source_exception from bg_error
                     return DurableExecutionInvocationOutput(
                         status=InvocationStatus.FAILED
                     ).to_dict()
